@@ -1023,6 +1023,7 @@ def bics(ir, instr, arg1, arg2, arg3):
 
     e += [ExprAssign(zf, ExprOp('FLAG_EQ_AND', tmp1, tmp2))]
     e += update_flag_nf(res)
+    e += [ExprAssign(cf, ExprInt(0, 1)), ExprAssign(of, ExprInt(0, 1))]
 
     e.append(ExprAssign(arg1, res))
     return e, []
@@ -1086,6 +1087,7 @@ def ands(ir, instr, arg1, arg2, arg3):
 
     e += [ExprAssign(zf, ExprOp('FLAG_EQ_AND', arg2, arg3))]
     e += update_flag_nf(res)
+    e += [ExprAssign(cf, ExprInt(0, 1)), ExprAssign(of, ExprInt(0, 1))]
 
     e.append(ExprAssign(arg1, res))
     return e, []
@@ -1097,6 +1099,7 @@ def tst(ir, instr, arg1, arg2):
 
     e += [ExprAssign(zf, ExprOp('FLAG_EQ_AND', arg1, arg2))]
     e += update_flag_nf(res)
+    e += [ExprAssign(cf, ExprInt(0, 1)), ExprAssign(of, ExprInt(0, 1))]
 
     return e, []
 
